@@ -284,7 +284,7 @@ merger_iter_next(void *v,
 		if (it->finished)
 			break;
 
-		if (ubuf_size(it->cur_key) == 0) {
+		if (!it->pending) {
 			ubuf_clip(it->cur_val, 0);
 			ubuf_append(it->cur_key, e->key, e->len_key);
 			ubuf_append(it->cur_val, e->val, e->len_val);
